@@ -1003,6 +1003,8 @@ impl Renderer {
                 let a: Vec<String> = args.iter().map(|a| self.arg(a, level)).collect();
                 format!("{} {}", self.expr(g, PREC_POSTFIX, level), a.join(", "))
             }
+            // redundant parentheses around the piped-into function
+            E::Id(_) | E::Access(..) if self.layout.redundant_parens => format!("({})", self.expr(f, PREC_POSTFIX, level)),
             _ => self.expr(f, PREC_POSTFIX, level),
         }
     }
